@@ -104,14 +104,16 @@ def run(ctx, res):
             key = "%s # %s # %s %s" % (p, arm or "-", s.kind, s.detail)
             row = table.get(key)
             if row:
-                # the guard the interval argument relies on must still be in the function's source
-                txt = "\n".join(ctx.src_lines(f.span["file"])[f.span["line"] - 1:f.span["eline"]])
-                if all(g in txt for g in row["needs"]):
+                # the comparison the interval argument relies on must still guard the site (name-free fingerprint)
+                from .. import panicinv as _PI
+                _PI._PROGRAM = P
+                if _PI._guards_match(row, 1, _PI.guard_fingerprint(f, s.bb)):
                     used.add(key)
                     res.ok("INT-ARITH", key + " (interval argument: %s)" % row["why"][:70], "residue")
                     continue
                 res.bad("INT-ARITH", key + " # guard-gone",
-                        "signed arithmetic accepted only under %s, which is no longer present in %s" % (row["needs"], p), s.loc())
+                        "signed arithmetic accepted only under %s, which no longer guards it in %s (now: %s)" % (
+                            row["guards"], p, _PI.guard_fingerprint(f, s.bb)), s.loc())
                 continue
             res.bad("INT-ARITH", key,
                     "unchecked signed integer arithmetic reachable from eval::eval: `%s` on %s panics in debug builds instead of wrapping or raising a Garden exception" % (s.kind.split(":")[1], s.detail),
@@ -270,7 +272,15 @@ def run(ctx, res):
                 calls = [n for n in S.walk(a["body"]) if n["k"] == "MethodCall"]
                 bins = [n for n in S.walk(a["body"]) if n["k"] == "Binary"]
                 key = "eval::eval_assign_update # %s" % k
-                if len(calls) == 1 and calls[0]["method"] == sib[k] and not bins and "var" in ctx.src_text(EVAL, calls[0]["recv"]["sp"]) and "rhs" in ctx.src_text(EVAL, calls[0]["args"][0]["sp"]):
+                # receiver = the variable's current value, argument = the popped right-hand side (by data flow from pop_value)
+                from .c03 import _taint
+                seeds_ = set()
+                for n_ in S.walk(au["body"]):
+                    if n_["k"] == "Let" and n_.get("init") is not None and any(x["k"] == "MethodCall" and x["method"] == "pop_value" for x in S.walk(n_["init"])):
+                        seeds_ |= set(S.pat_bindings(n_["pat"]))
+                popped_ = _taint(au["body"], seeds_) if seeds_ else set()
+                if len(calls) == 1 and calls[0]["method"] == sib[k] and not bins and calls[0]["args"] and \
+                        (S.idents_in(calls[0]["args"][0]) & popped_) and not (S.idents_in(calls[0]["recv"]) & popped_):
                     res.ok("SIBLING", key + " uses %s(var, rhs) like BinaryOperatorKind::%s" % (sib[k], k))
                 else:
                     res.bad("SIBLING", key + " # differs",
